@@ -69,22 +69,22 @@ theorem next_running (it : ThickPointsIt) (h : it.parallelPointsRemaining > 0) :
   simp only [next, loopFuel, nextFuel, h, ↓reduceIte]
 
 /-- Draining the last parallel: the remaining points of that parallel, then the end. -/
-theorem toListFuel_last_parallel (pp : BresenhamParameters) (len : Nat) (iter : ParallelsIterator)
+theorem drainFuel_last_parallel (pp : BresenhamParameters) (len : Nat) (iter : ParallelsIterator)
     (hpp : iter.parallelParameters = pp)
     (hdone : iter.thicknessAccumulator * iter.thicknessAccumulator > iter.thicknessThreshold) :
     ∀ (r fuel : Nat) (b : Bresenham), r < fuel →
-      toListFuel fuel ⟨b, len, r, iter⟩ = some (Line.PointsIt.toListFuel r ⟨pp, b, r⟩) := by
+      drainFuel fuel ⟨b, len, r, iter⟩ = some (Line.PointsIt.toListFuel r ⟨pp, b, r⟩) := by
   intro r
   induction r with
   | zero =>
     intro fuel b hf
     obtain ⟨f, rfl⟩ : ∃ f, fuel = f + 1 := ⟨fuel - 1, by omega⟩
-    simp only [toListFuel, next, loopFuel, nextFuel, Nat.lt_irrefl, ↓reduceIte, next_done iter hdone,
+    simp only [drainFuel, next, loopFuel, nextFuel, Nat.lt_irrefl, ↓reduceIte, next_done iter hdone,
       Line.PointsIt.toListFuel]
   | succ r ih =>
     intro fuel b hf
     obtain ⟨f, rfl⟩ : ∃ f, fuel = f + 1 := ⟨fuel - 1, by omega⟩
-    rw [toListFuel, next_running _ (by simp)]
+    rw [drainFuel, next_running _ (by simp)]
     simp only [Nat.add_sub_cancel, hpp]
     rw [ih f _ (by omega)]
     simp only [Line.PointsIt.toListFuel, Line.PointsIt.next, Nat.zero_lt_succ, ↓reduceIte,
@@ -92,7 +92,7 @@ theorem toListFuel_last_parallel (pp : BresenhamParameters) (len : Nat) (iter : 
 
 /-- Width-1 core: from the fresh state the iterator yields the centre line (as a walk with the
 parallel parameters) and stops. -/
-theorem toListFuel_width1 (iter : ParallelsIterator) (start : Pt) (len : Nat) (hlen : 0 < len)
+theorem drainFuel_width1 (iter : ParallelsIterator) (start : Pt) (len : Nat) (hlen : 0 < len)
     (hr : iter.right = ⟨start, 0⟩) (hre : iter.rightError = 0) (hs : iter.nextSide = .right)
     (hso : iter.strokeOffset = .none)
     (hthr : 0 < iter.perpendicularParameters.errorThreshold)
@@ -101,7 +101,7 @@ theorem toListFuel_width1 (iter : ParallelsIterator) (start : Pt) (len : Nat) (h
         (iter.thicknessAccumulator + iter.perpendicularParameters.errorStep.minor) >
         iter.thicknessThreshold)
     (b0 : Bresenham) (fuel : Nat) (hf : len < fuel) :
-    toListFuel fuel ⟨b0, len, 0, iter⟩ =
+    drainFuel fuel ⟨b0, len, 0, iter⟩ =
       some (Line.PointsIt.toListFuel len ⟨iter.parallelParameters, ⟨start, 0⟩, len⟩) := by
   obtain ⟨it1, hn, h1, h2, h3⟩ := next_first iter start hr hre hs hso hthr hacc
   have hdone : it1.thicknessAccumulator * it1.thicknessAccumulator > it1.thicknessThreshold := by
@@ -112,10 +112,10 @@ theorem toListFuel_width1 (iter : ParallelsIterator) (start : Pt) (len : Nat) (h
       ThickPointsIt.next ⟨⟨start, 0⟩, n + 1, n + 1, it1⟩ := by
     simp only [next, loopFuel, nextFuel, Nat.lt_irrefl, ↓reduceIte, hn, Nat.zero_lt_succ]
     rfl
-  have := toListFuel_last_parallel iter.parallelParameters (n + 1) it1 h1 hdone (n + 1) (f + 1)
+  have := drainFuel_last_parallel iter.parallelParameters (n + 1) it1 h1 hdone (n + 1) (f + 1)
     ⟨start, 0⟩ (by omega)
   rw [← this]
-  unfold toListFuel
+  unfold drainFuel
   rw [hstep]
 
 end ThickPointsIt
@@ -243,9 +243,13 @@ theorem thickPoints_width1 (l : Line) : thickPoints l 1 = some (Line.points l) :
   unfold thickPoints ThickPointsIt.new
   rw [hone, hnew]
   simp only [Nat.one_ne_zero, ↓reduceIte]
-  rw [ThickPointsIt.toListFuel_width1 iter l.start (majorLength l) (majorLength_pos l) hr hre hs hso
+  rw [ThickPointsIt.drainFuel_width1 iter l.start (majorLength l) (majorLength_pos l) hr hre hs hso
     hpthr (by rw [hacc, hthr]; exact ha1) (by rw [hacc, hthr, hmin]; exact ha2) _ _
-    (by unfold pixelBudget; have := majorLength_pos l; omega)]
+    (by
+      unfold pixelBudget
+      have := Nat.le_mul_of_pos_right (majorLength l)
+        (show 0 < iter.thicknessThreshold.toNat + 2 by omega)
+      omega)]
   rw [hpp, centre_walk]
 
 /-! ## Any width >= 1: the centre line is emitted first -/
@@ -253,10 +257,10 @@ theorem thickPoints_width1 (l : Line) : thickPoints l 1 = some (Line.points l) :
 namespace ThickPointsIt
 
 /-- Whatever follows, the points of the current parallel come first. -/
-theorem toListFuel_prefix (pp : BresenhamParameters) (len : Nat) (iter : ParallelsIterator)
+theorem drainFuel_prefix (pp : BresenhamParameters) (len : Nat) (iter : ParallelsIterator)
     (hpp : iter.parallelParameters = pp) :
     ∀ (r fuel : Nat) (b : Bresenham) (ps : List Pt), r < fuel →
-      toListFuel fuel ⟨b, len, r, iter⟩ = some ps →
+      drainFuel fuel ⟨b, len, r, iter⟩ = some ps →
       ∃ more, ps = Line.PointsIt.toListFuel r ⟨pp, b, r⟩ ++ more := by
   intro r
   induction r with
@@ -264,9 +268,9 @@ theorem toListFuel_prefix (pp : BresenhamParameters) (len : Nat) (iter : Paralle
   | succ r ih =>
     intro fuel b ps hf h
     obtain ⟨f, rfl⟩ : ∃ f, fuel = f + 1 := ⟨fuel - 1, by omega⟩
-    rw [toListFuel, next_running _ (by simp)] at h
+    rw [drainFuel, next_running _ (by simp)] at h
     simp only [Nat.add_sub_cancel, hpp] at h
-    cases hrec : toListFuel f ⟨(b.next pp).2, len, r, iter⟩ with
+    cases hrec : drainFuel f ⟨(b.next pp).2, len, r, iter⟩ with
     | none => rw [hrec] at h; simp at h
     | some qs =>
       rw [hrec] at h
@@ -279,9 +283,9 @@ theorem toListFuel_prefix (pp : BresenhamParameters) (len : Nat) (iter : Paralle
 
 end ThickPointsIt
 
-theorem len_lt_budget (l : Line) (w : Nat) : majorLength l < pixelBudget l w := by
+theorem len_lt_budget (l : Line) (thr : Int) : majorLength l < pixelBudget l thr := by
   unfold pixelBudget
-  have := Nat.le_mul_of_pos_left (majorLength l) (show 0 < 3 * w + 4 by omega)
+  have := Nat.le_mul_of_pos_right (majorLength l) (show 0 < thr.toNat + 2 by omega)
   omega
 
 /-- For every stroke width `w ≥ 1` (below the `i32` saturation point) the stroked line starts with
@@ -318,7 +322,8 @@ theorem thickPoints_prefix (l : Line) (w : Nat) (hw : 1 ≤ w) (hw2 : w ≤ 2147
   simp only [hw0, ↓reduceIte] at h
   obtain ⟨it1, hn, h1, _, _⟩ := next_first iter l.start hr hre hs hso hpthr hmono
   have hlen := majorLength_pos l
-  obtain ⟨f, hf⟩ : ∃ f, pixelBudget l w = f + 1 := ⟨pixelBudget l w - 1, by unfold pixelBudget; omega⟩
+  obtain ⟨f, hf⟩ : ∃ f, pixelBudget l iter.thicknessThreshold = f + 1 :=
+    ⟨pixelBudget l iter.thicknessThreshold - 1, by unfold pixelBudget; omega⟩
   obtain ⟨n, hn1⟩ : ∃ n, majorLength l = n + 1 := ⟨majorLength l - 1, by omega⟩
   have hstep : ThickPointsIt.next ⟨Bresenham.new l.start, majorLength l, 0, iter⟩ =
       ThickPointsIt.next ⟨⟨l.start, 0⟩, majorLength l, majorLength l, it1⟩ := by
@@ -326,14 +331,14 @@ theorem thickPoints_prefix (l : Line) (w : Nat) (hw : 1 ≤ w) (hw2 : w ≤ 2147
     simp only [ThickPointsIt.next, loopFuel, ThickPointsIt.nextFuel, Nat.lt_irrefl, ↓reduceIte, hn,
       Nat.zero_lt_succ]
     rfl
-  have h' : ThickPointsIt.toListFuel (pixelBudget l w) ⟨⟨l.start, 0⟩, majorLength l, majorLength l, it1⟩
-      = some ps := by
+  have h' : ThickPointsIt.drainFuel (pixelBudget l iter.thicknessThreshold)
+      ⟨⟨l.start, 0⟩, majorLength l, majorLength l, it1⟩ = some ps := by
     rw [← h, hf]
-    unfold ThickPointsIt.toListFuel
+    unfold ThickPointsIt.drainFuel
     rw [hstep]
-  obtain ⟨more, hm⟩ := ThickPointsIt.toListFuel_prefix (BresenhamParameters.new (paramLine l))
-    (majorLength l) it1 (by rw [h1, hpp]) (majorLength l) (pixelBudget l w) ⟨l.start, 0⟩ ps
-    (len_lt_budget l w) h'
+  obtain ⟨more, hm⟩ := ThickPointsIt.drainFuel_prefix (BresenhamParameters.new (paramLine l))
+    (majorLength l) it1 (by rw [h1, hpp]) (majorLength l) (pixelBudget l iter.thicknessThreshold)
+    ⟨l.start, 0⟩ ps (len_lt_budget l _) h'
   exact ⟨more, by rw [hm, centre_walk]⟩
 
 /-- Stroke width 0: no pixel (`effective_stroke_color()` is `None`). -/
